@@ -227,6 +227,18 @@ def check(run: Run) -> None:
         own = [j for j in ast.walk(f.node) if isinstance(j, ast.JoinedStr) and any(isinstance(v, ast.FormattedValue) and "body" in ast.unparse(v.value) for v in j.values)]
         run.check("C12.R4", f"{nm} renders notes through Note.to_string only", uses and not own, nm, own[0] if own else "to_string", f"{nm} builds item text itself instead of calling Note.to_string", file=f.file, node=f.node)
 
+    # the query path renders a multi-line note with every one of its lines intact (interior whitespace-only lines and trailing blanks are part of the body the grammar accepts)
+    from .c09 import _Pipeline
+
+    P = _Pipeline(run, model)
+    specs = [dict(body="first line  \n   \n  third line", fp="p.zo", line=1), dict(body="other note", fp="p.zo", line=5)]
+    r = P.go("C12.R4", "a note with a whitespace-only continuation line and trailing blanks", specs, P.SS["NOTE"], [], ["NONE"])
+    if r is not None:
+        raw = r[0]
+        want_raw = "- first line  \n   \n  third line\n- other note"
+        run.check("C12.R4", "a selected multi-line note is rendered with all its lines unchanged", raw == want_raw, "execute_with_session", f"rendered {raw!r}"[:200],
+                  f"selecting a note whose body is 'first line  \\n   \\n  third line' renders {raw!r}, expected {want_raw!r}: interior lines are stripped, so a whitespace-only continuation line becomes "
+                  "an empty line that ends the item (the rest is orphaned, the page has syntax errors) and trailing blanks of the body are lost", file=P.fe.file, node=P.fe.node)
     # ---- R5 / R7
     refresh_scenarios(run, model)
     # ---- R8
